@@ -320,6 +320,8 @@ class Fn:
             raise Untranslatable("raise of %s" % cls)
         if cls == "KaRuntimeError":
             self.m.need("KaRuntimeError")
+        elif cls in self.m.bind:
+            raise Untranslatable("%s is rebound at module level" % cls)
         if self.mode == "res":
             return "(Raise %s)" % cls
         if self.mode == "R":
